@@ -21,9 +21,17 @@ MANIFEST = {
 def run(chk):
     quick = chk.tier == "quick"
     fc = s5.enumerate_formspace(chk, facets=True)
-    sel = s5.sample_cases(fc, 36 if quick else 500, chk.seed, max_cost=60 if quick else None)
+    sel = s5.sample_cases(fc, 34 if quick else 500, chk.seed, max_cost=60 if quick else None)
+    # derivative tables on every facet of the tensor-product cells (their facets differ in which reference
+    # derivative is constant along them)
+    der = [c for c in fc if c["term"] in ("flux", "avgflux") and c["cell"] in ("quadrilateral", "hexahedron", "prism") and c["rule"] != "vertex"]
+    sel += [c for c in s5.sample_cases(der, 4 if quick else 40, chk.seed + 3, max_cost=80) if c not in sel]
+    # geometric quantities lowered to raw vertex access (circumradius, diameter, edge lengths), with restrictions
+    geo = [c for c in fc if c["term"] in ("geods", "geodS")]
+    sel += [c for c in s5.sample_cases(geo, 6 if quick else 42, chk.seed + 4, max_cost=80) if c not in sel]
     items = [{"case": c, "seed": chk.seed * 100003 + i, "scalar": "float64", "ninputs": 1 if quick else 2,
-              "builder": "harness.corpus.realise_facet", "max_entities": 3 if quick else None,
+              "builder": "harness.corpus.realise_facet",
+              "max_entities": (None if c["cell"] in ("interval", "triangle", "quadrilateral") else 3) if quick else None,
               "npairs": 2 if quick else 4, "nperm": 2, "prefill": i % 2 == 0} for i, c in enumerate(sel)]
     recs = s5.run_items(chk, items, nworkers=4 if quick else 6)
     nz = s5.report(chk, items, recs)
